@@ -37,16 +37,21 @@ def run(ctx):
     per = 3 if q else 20
     for fam, (par, vals) in DETECT.items():
         batch = P.families()[fam]["kind"] == "batch"
-        for i in range(per):
+        for i in range(per + (3 if vals is None else 0)):
             p = base_params(fam, rng)
             if vals is None:      # HDDDM / CDBD: t-test significance (smaller = stricter) or number of deviations (larger = stricter)
+                if i % 2 == 0:
+                    p["statistic"] = "tstat"
                 if p["statistic"] == "tstat":
-                    vs = [0.3, 0.2, 0.05, 0.01]
+                    vs = [0.9, 0.6, 0.3, 0.2, 0.05, 0.01]       # (significance levels above one half are legal)
                 else:
                     vs = [0.5, 1.0, 2.0, 3.0]
             else:
                 vs = vals
             i1, i2 = sorted(rng.sample(range(len(vs)), 2))
+            if vals is None and p["statistic"] == "tstat" and i % 2 == 0:
+                i1 = rng.choice([0, 1])              # the looser run uses a level above one half
+                i2 = rng.choice(range(i1 + 1, len(vs)))
             loose, strict = dict(p), dict(p)
             loose[par], strict[par] = vs[i1], vs[i2]
             n = rng.randint(8, 12) if batch else (rng.randint(150, 300) if fam not in ("KdqTreeStreaming", "LinearFourRates") else 100)
